@@ -37,6 +37,7 @@ class MirFn:
         self.ret = ret
         self.blocks = {}      # bb -> [lines]
         self.order = []
+        self.file = None      # source module (from the first span comment of the body)
 
     def short(self):
         """method name + parameter types (no source positions)"""
@@ -53,6 +54,10 @@ def parse_mir(path):
         for ln in fh:
             ln = ln.rstrip("\n")
             if " // " in ln:
+                if cur is not None and cur.file is None:
+                    mf = re.search(r"src/(\w+)\.rs:\d+", ln)
+                    if mf:
+                        cur.file = mf.group(1)
                 ln = ln.split(" // ")[0].rstrip()      # span comments
             if ln.lstrip().startswith("//"):
                 continue
@@ -491,6 +496,8 @@ def flag_drops(fns):
                 continue
             per[meth] = per.get(meth, 0) + 1
         key = _norm_mir_fn(f.name)
+        if f.file and not key.startswith(f.file + "::") and ("<impl %s>" % f.file) not in key:
+            key = f.file + "::" + key                  # free functions carry no module path in MIR names
         for meth, n in per.items():
             k = (key, meth)
             out[k] = max(out.get(k, 0), n)
